@@ -599,7 +599,7 @@ impl ConnectionEngine {
 //@@ tailfrom `let close = self.transport.close()`
 //@@ addparam outcome: Result<(), ConnectionInnerError>
 //@@ param tx : OutcomeTx
-//@@ subst `mut self` => `&mut self` rule=R32
+//@@ subst `(mut self,` => `(&mut self,` rule=R32
 //@@ subst `self.transport.close().map_err(Into::into)` => `self.transport.close().map_err(|e: TransportError| -> (o: ConnectionInnerError) ensures o == transport_err_to_inner(e) { e.err_into() })` rule=R17
 //@@ subst `outcome.and(close).map_err(Into::into)` => `outcome.and(close).map_err(|e: ConnectionInnerError| -> (o: Error) ensures o == inner_to_error(e) { inner_into_error(e) })` rule=R17
 //@@ spec
